@@ -10,7 +10,7 @@ EFF_FAMILIES = {
     # INIT: every call starts from the fresh per-run state that the other obligations of the hooks take for granted
     "C01": ["PROV", "FRAME-view", "POP-own", "FRAME-kernel", "INIT"],
     "C14": ["FRAME-kernel"],
-    "C02": ["PROV", "FRAME-view", "CALLS", "INIT"],
+    "C02": ["PROV", "FRAME-view", "CALLS", "INIT", "FRAME-kernel"],
     "C04": ["FRAME-book"],
     "C05": ["CALLS", "PROV", "FRAME-kernel", "INIT"],
     "C07": ["READS-rng", "INIT"],          # equal seed => equal run also on a used instance (histories)
@@ -36,9 +36,7 @@ TRUSTED_EFF = ["EFF rule table (pyvc/eff.py): syntactic over-approximation of st
 
 def _eff_component(R, pid):
     from .eff import Analyzer
-    fams = EFF_FAMILIES.get(pid, [])
-    if not fams:
-        return
+    fams = list(EFF_FAMILIES.get(pid, [])) + ["FRAME-assigns"]
     an = getattr(R, "_eff", None)
     if an is None:
         an = Analyzer()
@@ -50,6 +48,8 @@ def _eff_component(R, pid):
     counters = {}
     for s in an.sites:
         if s.family not in fams:
+            continue
+        if s.family == "FRAME-assigns" and pid not in s.props:
             continue
         if s.family == "READS-dir":
             continue        # handled below (exclusion list of C12)
